@@ -30,6 +30,30 @@
 #define clock_gettime(c_, ts_) sim_clock_gettime ((int) (c_), (ts_))
 #define syscall sim_syscall
 
+#if defined(__cplusplus)
+/* The C++ build reads the time through std::chrono::system_clock::now() (platform/c++11/src/time_rep_timespec.cc),
+   which would be the host's wall clock: give it the simulated clock.  The replacement keeps system_clock's
+   time_point type, so every conversion in the library is unchanged; only now() differs.  (All standard headers
+   that mention system_clock are included above, before the name becomes a macro.)  */
+#include <condition_variable>
+#include <mutex>
+#include <thread>
+namespace std { namespace chrono {
+struct sim_system_clock {
+	typedef system_clock::duration duration;
+	typedef system_clock::rep rep;
+	typedef system_clock::period period;
+	typedef system_clock::time_point time_point;
+	static time_point now () {
+		struct timespec ts;
+		sim_clock_gettime (0, &ts);
+		return (time_point (duration_cast<duration> (nanoseconds ((long long) ts.tv_sec * 1000000000LL + ts.tv_nsec))));
+	}
+};
+} }
+#define system_clock sim_system_clock
+#endif
+
 /* platform/posix/src/per_thread_waiter.c is compiled into the simulation unchanged; its thread-specific-data
    calls and its yield go to the runtime (definitions in src/sim_platform.c) */
 #if defined(__cplusplus)
